@@ -196,6 +196,10 @@ def _step(name, ctx):
         from geneticengine.algorithms.gp.parameterless import RandomizeParallelStep
 
         return RandomizeParallelStep([ElitismStep(), NoveltyStep(), GenericMutationStep(1), GenericCrossoverStep(1)], weights=[ctx.cint(0, 2, "w") for _ in range(4)])
+    if name == "randomize_parallel_fixed":
+        from geneticengine.algorithms.gp.parameterless import RandomizeParallelStep
+
+        return RandomizeParallelStep([ElitismStep(), NoveltyStep(), IdentityStep(), NoveltyStep()], weights=[1, 1, 1, 1])
     if name == "adaptive_mutation":
         from geneticengine.algorithms.gp.adaptive import GenericAdaptiveMutationStep
 
@@ -232,15 +236,22 @@ def h_step(ctx: Ctx, cfg):
 
         tr0 = SingleObjectiveProgressTracker(problem, SequentialEvaluator())
         tr0.evaluate([Individual(rep.create_genotype(None), rep)])
-        step = FeedbackParallelStep(tr0, [ElitismStep(), NoveltyStep(), GenericMutationStep(1)], weights=[ctx.cint(0, 2, "w") for _ in range(3)])
+        step = FeedbackParallelStep(tr0, [ElitismStep(), NoveltyStep(), GenericMutationStep(1)], weights=[ctx.cint(0, 1 if cfg.get("twice") else 2, "w") for _ in range(3)])
     if hasattr(step, "weights") and not any(step.weights):
         ctx.abandon("precondition:all-zero-weights")
     inds, pop = _pop(ctx, cfg, rep, problem, m)
     ctx.note("k", k)
     ctx.note("m", m)
-    out = list(step.apply(problem, SequentialEvaluator(), rep, FreshRandom(ctx), pop, k, 1))
+    rnd = FreshRandom(ctx, coarse=bool(cfg.get("twice")))
+    out = list(step.apply(problem, SequentialEvaluator(), rep, rnd, pop, k, 1))
     ctx.reached()
     ctx.require(len(out) == k, "size:step-does-not-yield-exactly-k", lambda: {"step": cfg["step"], "form": cfg.get("form", "list"), "k": k, "population": m, "yielded": len(out)})
+    if cfg.get("twice") and len(out) >= k:
+        # steps that re-configure themselves after a generation (weights, probabilities) must still
+        # yield exactly k in the next one
+        rnd.coarse_single = True  # the re-configuration AFTER the second generation is irrelevant here
+        out2 = list(step.apply(problem, SequentialEvaluator(), rep, rnd, list(out), k, 2))
+        ctx.require(len(out2) == k, "size:step-does-not-yield-exactly-k", lambda: {"step": cfg["step"], "generation": 2, "k": k, "yielded": len(out2), "weights": list(getattr(step, "weights", []))})
     ctx.require(all(isinstance(o, Individual) for o in out), "size:step-yields-non-individual")
 
 
@@ -336,6 +347,8 @@ def obligations(tier: str):
             if st == "tournament" and not T:
                 k_, m_ = 2, 2
             add("step", f"step_{st}_{form}", step=st, form=form, K=k_, M=m_, fitness="sym" if st in ("elitism",) else "const")
+    add("step", "step_randomize_parallel_two_generations", step="randomize_parallel_fixed", form="list", K=3, M=3, twice=True, timeout=300)
+    add("step", "step_feedback_parallel_two_generations", step="feedback_parallel", form="list", K=2, M=2, twice=True, timeout=300)
     for init in ("standard", "generic", "halfandhalf", "full", "grow", "pigrow", "ramped", "inject"):
         add("initializer", f"init_{init}", init=init, K=3 if init in ("inject", "grow", "pigrow") and not T else K)
     if T:
